@@ -88,6 +88,22 @@ def handleE2EArpKill : List String → Option String
     pure s!"{if v then obs else "load=<answers given>"}\t{b2s v}"
   | _ => none
 
+/-- `e2elivesrc cmdline srcip srcmac obs` (harness/cmd/sxdiff/e2efill.go): a live ARP scan with `--srcip` / `--srcmac`
+    over several passes.  By `C17_iii_overrides` the scan range carries the given values, and
+    the range is what every pass is generated from (`C19_shape`: the live loop calls the delegate with its own argument): every request of every pass names them
+    as its sender (ARP sender fields and Ethernet source), at least two passes were seen, and the process ended well. -/
+def handleE2ELiveSrc : List String → Option String
+  | [_cmd, ip, mac, obs] => do
+    let want := s!"spa={ip};sha={mac}/{mac}"
+    let v := match obs.splitOn ";" with
+      | [a, b, p, e] => s!"{a};{b}" == want && e == "exit=0" &&
+          (match (if p.startsWith "passes=" then (p.drop 7).toString.toNat? else none) with
+            | some n => decide (2 ≤ n)
+            | none => false)
+      | _ => false
+    pure s!"{if v then obs else want ++ ";passes>=2;exit=0"}\t{b2s v}"
+  | _ => none
+
 /-- `e2eerr cmdline nFrames nErrors obs` (harness/cmd/sxdiff/e2eerr.go): a packet scan whose ARP cache knows only some of
     the hosts and no gateway.  By `C13_cache_stage` (one faithful error per request without a MAC, never a probe) composed with
     `C07_final_full` (every request is one frame or one error on the merged error stream; `C13_error_stream_addrs`) and the logger writing one
